@@ -108,12 +108,21 @@ type vcCtx struct {
 	noOverflow bool
 	wrapSigned bool
 	names map[string]int
+	seenFact map[string]bool
 }
 
 func (c *vcCtx) assume(t *Term) {
 	if t == nil || t.IsTrue() {
 		return
 	}
+	if c.seenFact == nil {
+		c.seenFact = map[string]bool{}
+	}
+	k := t.String()
+	if c.seenFact[k] {
+		return
+	}
+	c.seenFact[k] = true
 	c.facts = append(c.facts, t)
 }
 
@@ -1374,7 +1383,7 @@ func (f *frame) funcModifies(callee *ssa.Function, args []ssa.Value, keys *modSe
 				return true
 			}
 			for _, k := range ks {
-				if top && ml.param < len(args) {
+				if top && ml.param < len(args) && len(ml.via) == 0 {
 					keys.add(k, args[ml.param])
 				} else {
 					keys.add(k, nil)
